@@ -604,7 +604,7 @@ def run(run, replay=None):
     if quick:
         ex = [dict(name="extra_arcs", B=4, MaxWord=1, MaxFlips=2, Kinds={"barc", "plane"}, NIdeal=6),
               dict(name="extra_horoarcs", B=4, MaxWord=1, MaxFlips=0, Kinds={"horoarc"}, NIdeal=4)]
-        px = [dict(name="projx_2d", PD=2, BP=2, MaxVecs=4, simulate=12, depth=6), dict(name="projx_3d", PD=3, BP=2, MaxVecs=4, simulate=8, depth=6)]
+        px = [dict(name="projx_2d", PD=2, BP=2, MaxVecs=4, simulate=24, depth=6), dict(name="projx_3d", PD=3, BP=2, MaxVecs=4, simulate=8, depth=6)]
         cp = dict(CB=1, RMax=2, MaxWordC=2)
     else:
         ex = [dict(name="extra_arcs", B=5, MaxWord=2, MaxFlips=2, Kinds={"barc", "plane"}, NIdeal=8),
